@@ -392,6 +392,35 @@ func MapLens() {
 			vio("C04", c, "putget", "Get after Put(%d) = %d", v, l.Get(&m))
 		}
 		Rec.Count("put_get_observations", 1)
+		// a Getter over the map lens never writes: an absent key stays absent, a nil map stays nil
+		other := fmt.Sprintf("k%d", 8+rng.IntN(3)) // never a key of m
+		g := optics.Getter(optics.NewLensM[map[string]int, string, int](other), func(v int) string { return fmt.Sprint(v) })
+		snapshot := map[string]int{}
+		for k, x := range m {
+			snapshot[k] = x
+		}
+		if pn, msg := Derive(func() { g.Put(&m, "ignored") }); pn {
+			vio("C04", c, "getter-writes", "Getter(NewLensM(%q)).Put panicked: %s", other, msg)
+		} else if !reflect.DeepEqual(m, snapshot) {
+			vio("C04", c, "getter-writes", "Getter(NewLensM(%q)).Put changed the map: %v, it was %v", other, m, snapshot)
+		}
+		var none map[string]int
+		if pn, msg := Derive(func() { g.Put(&none, "ignored") }); pn || none != nil {
+			vio("C04", c, "getter-writes", "Getter(NewLensM(%q)).Put on a nil map: panic=%v %s, map now %v", other, pn, msg, none)
+		}
+		if got := g.Get(&m); got != "0" {
+			vio("C04", c, "maplens-get", "Getter over an absent key returned %q", got)
+		}
+	}
+	// a Getter over a Setter over a field lens: Put writes nothing at all
+	type pair3 struct{ A, B, C int }
+	gs := optics.Getter(optics.Setter(optics.ForProduct1[pair3, int]("B"), func(s string) int { return len(s) + 100 }), func(s string) int { return len(s) })
+	for round := 0; round < 20; round++ {
+		s := pair3{1, 20 + round, 3}
+		gs.Put(&s, round)
+		if s != (pair3{1, 20 + round, 3}) {
+			vio("C04", c, "getter-writes", "Getter(Setter(B)).Put(%d) changed the structure to %+v", round, s)
+		}
 	}
 	End(c, "C04/maplens", true)
 }
